@@ -91,6 +91,12 @@ def component_cases(prob, max_inputs=5, with_jac=True):
             z = dict(vals)
             z[n] = np.zeros_like(vals[n])
             variants.append((n, z))
+        for n in names[:max_inputs]:
+            # ONE input changed, all the others exactly as before (point q at component granularity): a result cached under a
+            # partial key - "nothing to do, input x has not changed" - is stale here
+            z = dict(vals)
+            z[n] = vals[n] * 1.37 + (0.0 if np.any(vals[n] != 0) else 0.1)
+            variants.append(("*" + n, z))
         with warnings.catch_warnings(), np.errstate(all="ignore"):
             warnings.simplefilter("ignore")
             for what, z in variants:
